@@ -73,6 +73,10 @@ func SetAttributeValue(obj reflect.Value, fieldName string, value reflect.Value)
 		typeName := value.Type().String()
 		switch field.Type().Kind() {
 		case reflect.String:
+			if value.Kind() != reflect.String {
+				//reflect.Value.String() does not fail on other kinds, it yields text like "<int64 Value>"
+				return errors.New(fmt.Sprintf("can't assign a %s value to the string field: %s", value.Kind().String(), fieldName))
+			}
 			field.SetString(value.String())
 			break
 		case reflect.Int, reflect.Int8, reflect.Int16, reflect.Int32, reflect.Int64:
